@@ -10,6 +10,7 @@ ENG = {
     "poolfuzz": {"name": "poolfuzz", "sources": ["poolfuzz.c"]},
     "rngdet": {"name": "rngdet", "sources": ["rngdet.c"]},
     "rngsamp": {"name": "rngsamp", "sources": ["rngsamp.c"]},
+    "statcheck": {"name": "statcheck", "sources": ["statcheck.c"], "extra_ldflags": "-lquadmath"},
 }
 
 
@@ -104,6 +105,52 @@ PROPS["C16"] = {
                     "samplers are driven from the dispatcher context (FP exceptions masked) so NaN results are observed rather than trapped"],
 }
 
+PROPS["C17"] = {
+    "engines": ENG,
+    "jobs": [
+        J("sum-unweighted", "statcheck", "rel", 0, 3000, 300000),
+        J("sum-weighted", "statcheck", "rel", 1, 2000, 200000),
+        J("sum-unweighted-asan", "statcheck", "asan", 0, 300, 10000),
+        J("sum-weighted-asan", "statcheck", "asan", 1, 300, 10000),
+    ],
+    "rule": ("4 generated input sequences per case: lengths 0-4, 5-50, 1e3-1e5; classes uniform, heavy-tailed, constant, two-valued, "
+             "1e9 offset, magnitudes 1e+-60, small ints, sorted, reverse; count/min/max exact and mean/variance/stddev/skewness/kurtosis "
+             "against a __float128 two-pass reference within n*2^-49*kappa^p; merge at every split point (short) or random multi-way (long), "
+             "target aliasing either operand, empty operands, merged summary used further; weighted: exact mean, zero-weight samples "
+             "ignored, all-ones == unweighted, invariance under weight scaling by 2, 10, 1e-3, 2^40, weighted merge == concatenation; "
+             "distinct = fingerprint of (profile, class, length, weight class); non-trivial = >=5 non-constant samples (>=4 positive weights)"),
+    "headline": ["inputs", "summaries_vs_exact", "merges", "merge_empty_empty", "merge_empty_nonempty", "merge_target_aliases_operand",
+                 "weighted_means_vs_exact", "zero_weight_relations", "ones_weight_relations", "weight_scale_relations", "weighted_merges",
+                 "weighted_merge_with_empty", "ill_conditioned_skipped", "max_err_over_bound_ppm"],
+    "min_observed": {"quick": {"summaries_vs_exact": 20000, "merge_empty_empty": 100, "weight_scale_relations": 2000}},
+    "assumptions": ["__float128 two-pass statistics are exact enough to serve as reference",
+                    "degenerate denominators (constant data) and comparisons whose error bound exceeds 5 % (ill-conditioned) are not compared"],
+}
+PROPS["C18"] = {
+    "engines": ENG,
+    "jobs": [
+        J("order-asan", "statcheck", "asan", 2, 1500, 60000, timeout=120),
+        J("hist-asan", "statcheck", "asan", 3, 1000, 40000),
+        J("acf-asan", "statcheck", "asan", 4, 600, 20000),
+        J("order-rel", "statcheck", "rel", 2, 2000, 200000, timeout=120),
+        J("hist-rel", "statcheck", "rel", 3, 1500, 100000),
+        J("acf-rel", "statcheck", "rel", 4, 800, 50000),
+    ],
+    "rule": ("generated inputs: sizes 1-5, 6-60, 1023-1025, 2047-2049, up to 1e4; classes incl. duplicates, constant, sorted, reverse sorted; "
+             "time-series weight patterns equal / random / one sample holding 50-99 % (also first or last) / zero durations / unfinalised; "
+             "oracles: sort = ascending + same multiset of (x,t,w) triples, sort_t restores; copies equal, storage distinct, copy then "
+             "grown across its allocation (ASan); median has <= half weight strictly below and above; five-number text parsed: ordered, "
+             "min/max equal data; histogram bins via cmi_dataset_histogram_* equal the definition and sum to n; printed time-weighted "
+             "bars proportional to reference weights within one char; ACF[0]=PACF[0]=1, ACF equals its definition, ACF/PACF invariant "
+             "under x -> a*x+b, a in {1e-6,1e-3,7,1e6}; distinct = fingerprint (profile, class, size, weight pattern, bins, lags)"),
+    "headline": ["inputs", "dataset_sorts", "ts_sorts", "copies_mutated", "dataset_medians", "ts_medians", "fivenum_reports_parsed",
+                 "w_dominant", "w_zero_durations", "unfinalised_series", "size_1_5", "size_1023_1025", "size_2047_2049",
+                 "dataset_histograms", "hist_with_out_of_range_samples", "ts_histograms_parsed", "acf_computed", "acf_scale_relations"],
+    "min_observed": {"quick": {"ts_medians": 2000, "w_dominant": 500, "size_1_5": 200, "acf_scale_relations": 1000}},
+    "assumptions": ["%#8.4g rounding is monotone, so order of the printed five numbers reflects order of the values",
+                    "histogram bar characters: '#'=1, '='=0.75, '-'=0.25 for the proportionality check (tolerance one character)"],
+}
+
 # --------------------------------------------------------------------------
 # Texts for MANIFEST.json (bin/gen_manifest.py)
 MANIFEST_TEXT = {
@@ -139,6 +186,21 @@ MANIFEST_TEXT = {
         "note": "Trusts scipy reference distributions; finite samples: a distortion smaller than ~1e-3 in CDF (quick) is not visible.",
         "technique": "runtime monitoring: per-draw support oracle + goodness-of-fit monitors (KS/chi-square/moments/tails) over seeded samples, two-stage thresholds",
         "design_ref": "DESIGN.md 4/C16",
+    },
+    "C17": {
+        "level": ("Exploration with an exact oracle: every accessor of data summaries compared with __float128 two-pass statistics over "
+                  "generated sequences, plus metamorphic relations (split/merge in all shapes, weight scaling, weight-one equivalence, "
+                  "zero-weight insertion); held on the sequences generated."),
+        "note": "Tolerance n*2^-49*kappa^p (kappa = sqrt(1+mean^2/var)); ill-conditioned comparisons skipped and counted.",
+        "technique": "runtime monitoring: exact-reference differential (__float128) + metamorphic relation monitors over generated input sequences, also under ASan/UBSan",
+        "design_ref": "DESIGN.md 4/C17",
+    },
+    "C18": {
+        "level": ("Exploration with definitional oracles over generated datasets/time series including the edge sizes and weight patterns "
+                  "named by the property; report texts are parsed; ASan watches copies being grown; held on the inputs generated."),
+        "note": "Trusts the harness' own evaluation of the definitions; printed-bar proportionality within one character.",
+        "technique": "runtime monitoring: definitional predicate monitors (sortedness, multiset, median weight balance, bin placement, ACF invariance) over generated inputs, parsed report texts, ASan/UBSan",
+        "design_ref": "DESIGN.md 4/C18",
     },
 }
 NOT_APPLICABLE = {}
